@@ -828,6 +828,7 @@ fn main() {
                 if let Some(c) = gaps::Case::parse(rest) {
                     writeln!(w, "GB {}", c.line()).unwrap(); w.flush().unwrap();
                     let notes = gaps::run(&c);
+                    for k in gaps::take_lines() { writeln!(w, "{k}").unwrap(); }
                     writeln!(w, "G {}", c.line()).unwrap();
                     for m in notes { writeln!(w, "X colls gaps case :: {m}").unwrap(); }
                 }
@@ -876,6 +877,7 @@ fn main() {
             let c = gaps::gen_case(&mut r);
             writeln!(w, "GB {}", c.line()).unwrap(); w.flush().unwrap();
             let notes = gaps::run(&c);
+            for k in gaps::take_lines() { writeln!(w, "{k}").unwrap(); }
             writeln!(w, "G {}", c.line()).unwrap();
             for m in notes { writeln!(w, "X colls gaps case :: {m}").unwrap(); }
         }
